@@ -656,6 +656,11 @@ func (env *LEnv) update(k, v *LVal) *LVal {
 	// first, write it and report success, leaving the package binding it
 	// names untouched -- (let ((user:x 5)) (set! user:x 9) user:x) was 1.
 	colonIdx := strings.IndexByte(k.Str, ':')
+	// Errors are created by the environment set! was evaluated in -- the
+	// walk below ends at the root environment, whose current location is
+	// whatever top-level form (or argument of it) is being evaluated, not
+	// the set! form or its symbol.
+	caller := env
 	for {
 		if colonIdx < 0 {
 			_, ok := env.scope[k.Str]
@@ -670,7 +675,7 @@ func (env *LEnv) update(k, v *LVal) *LVal {
 			target, key := env.Runtime.Package, k
 			pieces := SplitSymbol(k)
 			if pieces.Type == LError {
-				if err := env.ErrorAssociate(pieces); err != nil {
+				if err := caller.ErrorAssociate(pieces); err != nil {
 					return err
 				}
 				return pieces
@@ -678,13 +683,13 @@ func (env *LEnv) update(k, v *LVal) *LVal {
 			if pieces.Len() == 2 && pieces.Cells[0].Str != "" {
 				pkg := env.Runtime.Registry.packages[pieces.Cells[0].Str]
 				if pkg == nil {
-					return env.Errorf("unknown package: %q", pieces.Cells[0].Str)
+					return caller.Errorf("unknown package: %q", pieces.Cells[0].Str)
 				}
 				target, key = pkg, pieces.Cells[1]
 			}
 			lerr := target.Update(key, v)
 			if lerr.Type == LError {
-				if err := env.ErrorAssociate(lerr); err != nil {
+				if err := caller.ErrorAssociate(lerr); err != nil {
 					return err
 				}
 				return lerr
